@@ -691,6 +691,13 @@ func (e *Engine) convert(p *Path, x *ssa.Convert) Value {
 	fw, fs := intWidth(from)
 	tw, _ := intWidth(to)
 	if u, ok := v.(Undef); ok {
+		if tw > 0 && isFloat(from) && strings.Contains(u.why, "float") {
+			// an integer made from a floating-point value the engine does not model: any value of the type
+			// (over-approximation: sound for unsat verdicts, a model that relies on it does not replay)
+			e.nPoison++
+			e.used("integer converted from an unmodelled floating-point value: unconstrained (" + u.why + ")")
+			return e.Var(fmt.Sprintf("fhavoc%d", e.nPoison), tw)
+		}
 		return u
 	}
 	switch {
